@@ -80,6 +80,12 @@ def intersects (l r : List Rng) : Bool :=
 /-- `SNORanges::contains(rhs)`: is `rhs ⊆ self`. -/
 def containsAll (l rhs : List Rng) : Bool := rhs.all fun r => containsRange l r
 
+/-- `RangeMOC::first_index`: start of the first range. -/
+def firstIndex (l : List Rng) : Option Nat := l.head?.map (·.1)
+
+/-- `RangeMOC::last_index`: EXCLUSIVE end of the last range. -/
+def lastIndex (l : List Rng) : Option Nat := l.getLast?.map (·.2)
+
 /-- `SNORanges::range_sum`. -/
 def rangeSum : List Rng → Nat
   | [] => 0
